@@ -674,6 +674,8 @@ type termRenderer struct {
 	fn       *ssa.Function
 	paramStr map[*ssa.Parameter]string
 	allocOrd map[*ssa.Alloc]int
+	// singleStore: render an Alloc that is stored exactly once (captured parameter copies) as the stored value.
+	singleStore bool
 }
 
 func newTermRenderer(fn *ssa.Function) *termRenderer {
@@ -790,6 +792,11 @@ func (t *termRenderer) term(s *pstate, v ssa.Value, d int) string {
 		}
 		return t.term(s, x.X, d+1) + "[" + lo + ":" + hi + "]"
 	case *ssa.Alloc:
+		if t.singleStore {
+			if v := singleStoredValue(x); v != nil {
+				return t.term(s, v, d+1)
+			}
+		}
 		if x.Heap {
 			r := "new(" + typeShort(x.Type().Underlying().(*types.Pointer).Elem()) + ")"
 			if o := t.allocOrd[x]; o > 1 {
@@ -1317,4 +1324,24 @@ func (c *Ctx) AllDominatedBy(rule string, fn *ssa.Function, reA, reB string, min
 // termOf renders an SSA value of fn without path bindings.
 func (c *Ctx) termOf(fn *ssa.Function, v ssa.Value) string {
 	return c.Facts(fn).tr.term(nil, v, 0)
+}
+
+
+func singleStoredValue(a *ssa.Alloc) ssa.Value {
+	refs := a.Referrers()
+	if refs == nil {
+		return nil
+	}
+	var val ssa.Value
+	n := 0
+	for _, r := range *refs {
+		if st, ok := r.(*ssa.Store); ok && st.Addr == a {
+			n++
+			val = st.Val
+		}
+	}
+	if n == 1 {
+		return val
+	}
+	return nil
 }
